@@ -281,6 +281,7 @@ def run_harness(exe, casefile, ids, per_case_timeout=5, env_extra=None, total_ti
                           'detect_stack_use_after_return=0:print_summary=0'
     env['UBSAN_OPTIONS'] = 'print_stacktrace=0:halt_on_error=1'
     env['LSAN_OPTIONS'] = 'exitcode=23'
+    env['TSAN_OPTIONS'] = 'halt_on_error=1:exitcode=66:second_deadlock_stack=1'
     if env_extra:
         env.update(env_extra)
     results = {}
